@@ -174,6 +174,7 @@ type Stats struct {
 	Classes    map[string]int `json:"classes"`
 	Ops        map[string]int `json:"ops"`
 	OracleFail int            `json:"oracle_failures"`
+	Corpus     int            `json:"corpus_cases"` // cases read from /verif/corpus/<id>.txt (run before the generated ones)
 	Samples    []string       `json:"samples"`
 	Extra      map[string]any `json:"extra,omitempty"`
 }
@@ -185,6 +186,7 @@ type Stats struct {
 var HungCases int32
 
 func Run(p *Prop, seed uint64, tier, dir, replayOps string) error {
+	st0Corpus := 0
 	if err := os.MkdirAll(dir, 0o755); err != nil {
 		return err
 	}
@@ -205,6 +207,24 @@ func Run(p *Prop, seed uint64, tier, dir, replayOps string) error {
 		}
 		f.Close()
 	} else {
+		// corpus first: minimised inputs of past failures of this machinery (false alarms corrected, violations found)
+		cdir := os.Getenv("VERIF_CORPUS")
+		if cdir == "" {
+			cdir = "/verif/corpus"
+		}
+		if f, err := os.Open(cdir + "/" + p.ID + ".txt"); err == nil {
+			sc := bufio.NewScanner(f)
+			sc.Buffer(make([]byte, 1<<20), 1<<28)
+			for sc.Scan() {
+				t := strings.Fields(sc.Text())
+				if len(t) < 1 || strings.HasPrefix(t[0], "#") {
+					continue
+				}
+				cases = append(cases, Case{Op: t[0], Args: t[1:]})
+				st0Corpus++
+			}
+			f.Close()
+		}
 		p.Gen(NewRng(seed), tier, func(c Case) { cases = append(cases, c) })
 	}
 	ops, err := os.Create(dir + "/ops.txt")
@@ -214,7 +234,7 @@ func Run(p *Prop, seed uint64, tier, dir, replayOps string) error {
 	impl, _ := os.Create(dir + "/impl.txt")
 	orc, _ := os.Create(dir + "/oracle.txt")
 	wo, wi, wr := bufio.NewWriterSize(ops, 1<<20), bufio.NewWriterSize(impl, 1<<20), bufio.NewWriter(orc)
-	st := &Stats{Property: p.ID, Seed: seed, Tier: tier, Classes: map[string]int{}, Ops: map[string]int{}}
+	st := &Stats{Property: p.ID, Seed: seed, Tier: tier, Classes: map[string]int{}, Ops: map[string]int{}, Corpus: st0Corpus}
 	seen := map[string]bool{}
 	for i, c := range cases {
 		line := c.Line(i)
